@@ -162,15 +162,26 @@ class EEMSWrite(SameArrayShapeMixin, Command):
                 mask |= numpy.ma.getmaskarray(arr)
 
             for command in commands:
+                data = numpy.ma.MaskedArray(command.result.data, mask)
+
+                # The fill value marks the missing cells in the file, so it must not be one of the values
+                values = data.compressed()
+                fill_value = values.dtype.type(command.result.fill_value)
+                while (values == fill_value).any():
+                    if numpy.issubdtype(values.dtype, numpy.integer):
+                        fill_value = fill_value + values.dtype.type(1)
+                    else:
+                        fill_value = numpy.nextafter(fill_value, values.dtype.type(numpy.inf))
+
                 variable = dataset.createVariable(
                     command.result_name,
                     command.result.dtype.char,
                     dimensions,
-                    fill_value=command.result.fill_value,
+                    fill_value=fill_value,
                     compression="zlib",
                     complevel=1,
                 )
-                variable[:] = numpy.ma.MaskedArray(command.result.data, mask)
+                variable[:] = data
 
                 # Apply CRS metadata
                 if esri_pe:
